@@ -7,7 +7,7 @@ patch="$1"; shift
 cd /verif
 if ! git -C /repo diff --quiet; then echo "refusing: /repo has uncommitted changes"; exit 2; fi
 git -C /repo apply "$patch" || { echo "patch does not apply"; exit 2; }
-trap 'git -C /repo checkout -- . ; git -C /verif checkout -- evidence 2>/dev/null' EXIT
+trap 'git -C /repo checkout -- . ; git -C /verif checkout -- evidence 2>/dev/null; python3 /verif/tools/extract.py >/dev/null' EXIT
 for p in "$@"; do
   t0=$(date +%s)
   out=$(./check "$p" --tier quick 2>&1); rc=$?
